@@ -6,7 +6,7 @@ from __future__ import annotations
 import ast
 import re
 
-from ..astutil import alpha_same, attr_chain, call_attr, calls_in, guard_facts, range_bounds, text_facts, unparse, walk_local
+from ..astutil import alpha_same, attr_chain, call_attr, canon_cmp, calls_in, guard_facts, range_bounds, text_facts, unparse, walk_local
 from ..cfg import CFG
 from ..dataflow import Deriv, reaching_defs, resolved_text
 from ..report import Finding, Report
@@ -516,13 +516,13 @@ def check_index_classes(idx: Index, rep: Report) -> None:
             continue
         for n in rebuilds:
             facts = guard_facts(f.node, n)
-            txts = [unparse(t) + (":T" if p else ":F") for t, p in facts]
-            neg_guard = any(re.search(rf"\b{ixn} < 0:F|\b{ixn} >= 0:T|0 <= {ixn}\b.*:T", x) for x in txts)
+            txts = [canon_cmp(t) + (":T" if p else ":F") for t, p in facts]  # comparisons oriented with < / <=
+            neg_guard = any(re.search(rf"\b{ixn} < 0:F|0 <= {ixn}\b.*:T", x) for x in txts)
             normalised = any(isinstance(s, ast.Assign) and unparse(s.targets[0]) == ixn and "len(" in unparse(s.value) for s in walk_local(f.node)) or any(isinstance(s, ast.AugAssign) and unparse(s.target) == ixn and "len(" in unparse(s.value) for s in walk_local(f.node))
             # a normalisation `i += len(xs)` alone is not enough (i = -len-1 stays negative): a rejection of negative
             # indices must hold at the rebuild, and it must be tested after the last assignment to the index
             last_assign = max([s.lineno for s in walk_local(f.node) if (isinstance(s, ast.Assign) and unparse(s.targets[0]) == ixn) or (isinstance(s, ast.AugAssign) and unparse(s.target) == ixn)] + [0])
-            guard_lines = [t.lineno for t, p in facts if re.search(rf"\b{ixn} < 0|\b{ixn} >= 0|0 <= {ixn}\b", unparse(t))]
+            guard_lines = [t.lineno for t, p in facts if re.search(rf"\b{ixn} < 0|0 <= {ixn}\b", canon_cmp(t))]
             if neg_guard and all(g > last_assign for g in guard_lines):
                 r.ok(f.fq, f"{f.loc} negative index {'normalised and ' if normalised else ''}rejected before the slice rebuild")
             else:
